@@ -244,14 +244,46 @@ class SymPool:
             out.append(val)
         return out
 
+    def _collect(self, iterable, chunksize):
+        """imap / imap_unordered take their tasks from the iterable in batches of `chunksize` and pickle a batch as soon as it
+        is taken (multiprocessing's task handler): a generator that re-uses one mutable object for every task is harmless
+        with batches of one - each state is pickled before the generator moves on - and is not with larger batches (the
+        members of a batch are references to the same object, pickled together in its last state)."""
+        import itertools
+        it = iter(iterable)
+        out = []
+        while True:
+            g = list(itertools.islice(it, chunksize))
+            if not g:
+                return out
+            out.extend(self._cross(g))
+
     def imap(self, fn, iterable, chunksize=None):
-        results, _ = self._run(fn, iterable, 'imap', max(1, int(chunksize or 1)))
+        c = max(1, int(chunksize or 1))
+        results, _ = self._run(fn, self._collect(iterable, c), 'imap', c)
         return _Lazy(results)
 
     def imap_unordered(self, fn, iterable, chunksize=None):
-        results, order = self._run(fn, iterable, 'imap_unordered')
+        c = max(1, int(chunksize or 1))
+        results, order = self._run(fn, self._collect(iterable, c), 'imap_unordered', c)
         comp = self.schedule.perm(len(results), 'completion')
         return _Lazy([results[i] for i in comp])
+
+    def apply_async(self, fn, args=(), kwds=None, callback=None, error_callback=None):
+        """One task; the result object keeps the outcome: get() re-raises a worker's exception, wait() does not."""
+        results, _ = self._run(lambda a: fn(*a[0], **a[1]), [(tuple(args), dict(kwds or {}))], 'apply_async')
+        ok, val = results[0]
+        if ok and callback is not None:
+            callback(val)
+        if not ok and error_callback is not None:
+            error_callback(val)
+        return _Async(ok, val)
+
+    def map_async(self, fn, iterable, chunksize=None, callback=None, error_callback=None):
+        tasks = list(iterable)
+        results, _ = self._run(fn, tasks, 'map', self._chunksize(len(tasks), chunksize))
+        bad = [v for ok, v in results if not ok]
+        return _Async(not bad, bad[0] if bad else [v for ok, v in results])
 
     # pathos spellings
     uimap = imap_unordered
@@ -335,6 +367,27 @@ class SymPathosPool(SymPool):
 
 
 _MISSING = object()
+
+
+class _Async:
+    """multiprocessing.pool.AsyncResult of a task that has already run."""
+
+    def __init__(self, ok, val):
+        self._ok, self._val = ok, val
+
+    def get(self, timeout=None):
+        if not self._ok:
+            raise self._val
+        return self._val
+
+    def wait(self, timeout=None):
+        return None
+
+    def ready(self):
+        return True
+
+    def successful(self):
+        return self._ok
 
 
 class MultiprocessingFacade:
